@@ -79,6 +79,11 @@ extern "C" void h_Enum_write()
         __CPROVER_assert(out._m_written == 3 && out._m_logc[0] == 'S' && out._m_logt[0][0] == '.' && out._m_logt[0][1] == 0 && out._m_logc[2] == 'S' && out._m_logt[2][0] == '.' && out._m_logt[2][1] == 0, "C09 an enumeration value is written between dots");
         __CPROVER_assert(out._m_logc[1] == 'S' && !strcmp(out._m_logt[1], in_v == 0 ? "RED" : "GREEN"), "C09 an enumeration value is written as its declared (upper-case) item name");
     }
+    /* string form, as used for aggregate elements: the buffer is shared by all elements, so earlier content must not survive */
+    std::string buf; buf = "zz";
+    const char *r = e->SDAI_Enum::STEPwrite(buf);
+    if (in_v == 2) __CPROVER_assert(r[0] == 0, "an unset enumeration element renders as nothing");
+    else __CPROVER_assert(!strcmp(r, in_v == 0 ? ".RED." : ".GREEN."), "C01/C09 the string form of an enumeration element is exactly .ITEM., whatever the shared buffer held before");
 }
 
 /* C03: STEPread forgives exactly one thing, a MISSING value of an OPTIONAL attribute; every error found by the item
